@@ -312,6 +312,13 @@ def step (w : World) (ws : List String) : World × List String :=
       listUnderFault w ci x (bytesOfHex p) (vs.map (valOfWords ty)) true
   | "SM" :: c :: p :: vs => withCtx c fun ci x =>
       emitApi w ci x (apiSetmulti orc w.k x.cfg (bytesOfHex p) (vs.map optOfHex))
+  | ["SSA", c, p, idx] => withCtx c fun ci x =>
+      -- cfg_setnstr(cfg, name, cfg_getnstr(cfg, name, i), i): the argument aliases what the call may release
+      let cur : Val :=
+        match (getoptPath x.cfg (bytesOfHex p)).ref.bind x.cfg.getOpt with
+        | some o => (match o.ty, o.vals[idx.toNat!]? with | .str, some (.str s) => .str s | _, _ => .str none)
+        | none => .str none
+      emitApi w ci x (apiSetn orc w.k x.cfg (bytesOfHex p) .str cur idx.toNat! true)
   | ["SOA", c, p] => withCtx c fun ci x =>
       -- cfg_setopt(cfg, opt, <the string the option holds now>): the argument aliases what the call releases
       let cur : Option Bytes :=
